@@ -182,6 +182,7 @@ void h_iso_frac_61_83(void) { check_iso(AWS_DATE_FORMAT_ISO_8601, 61, 83); ISO_C
  * The variant WITHOUT "Www," (the week day is optional in RFC 822 and in the parser's own comment) is generated when
  * `weekday` is false: the text then starts with the day of month. */
 static const char k_months[] = "janfebmaraprmayjunjulaugsepoctnovdec";
+static int r_neg, r_z0, r_z1, r_z2, r_z3;
 static int r_ndig, r_d0, r_d1, r_mon; /* replay variables (native reproduction of a counterexample: replay/date_time_replay.c) */
 static bool e_utc;         /* a zone was given (UTC designator or numeric offset) */
 static char e_tz[6];       /* expected zone text */
@@ -201,6 +202,7 @@ static void gen_zone_offset(void) {
     put((uint8_t)e_tz[0]);
     int v[4];
     for (int i = 0; i < 4; ++i) { v[i] = put_digit(); e_tz[1 + i] = (char)('0' + v[i]); }
+    r_neg = neg; r_z0 = v[0]; r_z1 = v[1]; r_z2 = v[2]; r_z3 = v[3];
     e_off = (time_t)((10 * v[0] + v[1]) * 3600 + (10 * v[2] + v[3]) * 60);
     if (neg) e_off = -e_off;
 }
@@ -513,12 +515,15 @@ void h_init_epoch_millis(void) {
 
 /* init from a double: whole seconds + the fraction rounded to the nearest millisecond.  The field may be 1000 (fraction
  * >= .9995): all views still denote whole*1000 + 1000. */
+static uint64_t r_whole, r_frac_e7;
 void h_init_epoch_secs(void) {
     reset_models();
     double x = nondet_double();
     __CPROVER_assume(x >= 0.0 && x <= (double)T_MAX_9999 + 0.999);
     struct aws_date_time dt = any_dt();
     aws_date_time_init_epoch_secs(&dt, x);
+    r_whole = (uint64_t)x;                           /* replay variables: x to 7 decimal places */
+    r_frac_e7 = (uint64_t)((x - (double)r_whole) * 1e7);
     double whole = (double)dt.timestamp;
     __CPROVER_assert(whole <= x && x < whole + 1.0, "timestamp == floor(x)");
     double frac = x - whole; /* exact */
